@@ -2,6 +2,7 @@
 
 import json
 import os
+import pickle
 import subprocess
 import threading
 import time
@@ -23,7 +24,7 @@ RULE = ('2-4 contenders (threads sharing one Cache, threads with their own Cache
 DISTINCT = ('schedules_preempted_while_holding', 'process_runs')
 REQUIRED = ('schedules_lock', 'schedules_rlock', 'schedules_semaphore', 'schedules_barrier', 'critical_sections',
             'contended_acquires', 'nested_acquires', 'refused_releases', 'process_runs_done', 'fanout_schedules',
-            'fork_runs_done', 'waiting_contenders_failed_by_injection')
+            'fork_runs_done', 'waiting_contenders_failed_by_injection', 'contenders_with_pickled_handles')
 ASSUMPTIONS = ('witness intervals lie strictly inside the claimed hold period, so an overlap is a proof and clock '
                'granularity can only hide one', 'expire is not used on the locks (an expiring lock frees by design)')
 
@@ -39,9 +40,12 @@ def schedule(dc, sc, res, rng, label, kind):
     topo = rng.choice(['shared', 'separate', 'fanout'])
     n = rng.randrange(2, 5)
     if topo == 'fanout':
-        base = dc.FanoutCache(d, shards=2, timeout=0)
-        caches = [base] * n
+        # a shard count other than the default, and some contenders hold a pickled copy of the handle (what a worker
+        # process or a task queue would get): the lock record must live in the same shard for all of them
+        base = dc.FanoutCache(d, shards=rng.choice([2, 3, 5, 13]), timeout=0)
+        caches = [base if rng.random() < 0.5 else pickle.loads(pickle.dumps(base)) for _ in range(n)]
         res.count('fanout_schedules')
+        res.count('contenders_with_pickled_handles', sum(1 for c in caches if c is not base))
     else:
         base = dc.Cache(d, timeout=0)
         caches = [base if topo == 'shared' else dc.Cache(d, timeout=0) for _ in range(n)]
